@@ -145,6 +145,9 @@ def run(gen_path, meta, rlimit=20, multiple_errors=5, seed=None, threads=4, time
             'fn': reg['fn'] if reg else None, 'props': reg.get('props') if reg else None,
             'gen_line': where_line, 'rendered': d.get('rendered', '')[:3000],
         }
+        if ob['props'] is not None and ('alloc_ok' in clause or 'ALLOC_COUNT_MAX' in clause):
+            # allocation-allowance preconditions decide the memory properties only
+            ob['props'] = [p for p in ob['props'] if p in ('C13', 'C01')]
         ob['id'] = obligation_id(meta['unit'], ob)
         if kind == 'refuted':
             res['failures'].append(ob)
